@@ -146,7 +146,13 @@ def run(chk):
                     mats.append((c, list(tr), [list(r) for r in m]))
                     yield c, tr, m
             part._get_partial_matrices = recording
-            part.partial_cluster(method='sca', threshold=t, cluster_method=link, ref='pids', post_processing=pp, mode='global')
+            sot = rng.random() < 0.3
+            if sot:
+                # morphemes also end after a tone (words without a written border only): the documented option of partial_cluster
+                chk.hist['partial_cluster(split_on_tones=True)'] += 1
+                part.partial_cluster(method='sca', threshold=t, cluster_method=link, ref='pids', post_processing=pp, mode='global', split_on_tones=True)
+            else:
+                part.partial_cluster(method='sca', threshold=t, cluster_method=link, ref='pids', post_processing=pp, mode='global')
         except Exception as ex:  # noqa
             fails.append((d, link, t, pp, 'raised %s: %s' % (type(ex).__name__, str(ex)[:120])))
             continue
@@ -158,9 +164,17 @@ def run(chk):
                   any(nmorph(toks[k]) > 1 for k in pids) and len(set(allids)) < len(allids),
                   branch=['link:' + link, 'post_processing:%s' % pp])
         e = None
+        if sot:
+            def nmorph_(tk):
+                tk = list(tk)
+                if '+' in tk or '_' in tk:
+                    return nmorph(tk)
+                return 1 + sum(1 for i_, x_ in enumerate(tk[:-1]) if x_ and all(ch in '⁰¹²³⁴⁵⁶' for ch in x_))
+        else:
+            nmorph_ = nmorph
         for k in pids:
-            if len(pids[k]) != nmorph(toks[k]):
-                e = 'word %d has %d morphemes but %d partial ids' % (k, nmorph(toks[k]), len(pids[k]))
+            if len(pids[k]) != nmorph_(toks[k]):
+                e = 'word %d %r has %d morphemes%s but %d partial ids' % (k, ' '.join(toks[k]), nmorph_(toks[k]), ' (borders also after tones)' if sot else '', len(pids[k]))
             if pp and len(set(pids[k])) != len(pids[k]):
                 e = 'word %d: two morphemes share partial id (post-processing on): %r' % (k, pids[k])
         for a in pids:
